@@ -146,6 +146,8 @@ def get_attribute(ctx, obj, name):
                     items = ops.iterate(ctx, a[0])  # a generator argument is consumed (its element expressions are evaluated)
                     if not items:
                         return ''  # sep.join(()) == ''
+                    if all(isinstance(x, str) for x in items):
+                        return obj.join(items)  # concrete strings: exact
                     if any(isinstance(x, Sym) and IdxStr.chars_of(x) is not None for x in items):
                         return IdxStr.join(ctx, obj, items)  # strings of symbolic characters: exact concatenation
                     if any(isinstance(y, TokStr) for y in items):
@@ -998,6 +1000,9 @@ class Interp:
     def ex_Set(self, n, env):
         xs = self.ex_Tuple(n, env)
         if ops.has_sym(xs):
+            for x in xs:
+                if hasattr(x, 'sym_set_of'):  # opt-in: the element's domain builds the set value (pyvc/symset.py)
+                    return x.sym_set_of(self.ctx, xs)
             raise Unsupported('set display of symbolic items')
         return set(xs)
 
